@@ -1523,7 +1523,8 @@ def _file_unit(draw, prefix, with_prelude, includes):
     return head + text
 
 
-STRUCTURES = ['single', 'chain', 'subdir', 'missing', 'self', 'mutual',
+STRUCTURES = ['single', 'chain', 'subdir', 'missing', 'missing', 'self',
+              'mutual',
               'directory', 'searchdep', 'nonutf8', 'bom', 'crlf',
               'top-missing', 'string-include', 'searchgraph', 'searchgraph',
               'searchgraph', 'searchdep', 'searchdep']
@@ -1620,9 +1621,17 @@ def files_strategy(draw):
         files['sub/b.mof'] = _file_unit(draw, 'F2', True, [])
     elif s == 'missing':
         files[top] = _file_unit(draw, 'F0', True,
-                                [_pick(draw, ['nothere.mof', 'sub/no.mof',
-                                              'x', '.mof', 'aä.mof',
-                                              '../../nothere.mof'])])
+                                [_pick(draw, [
+                                    'nothere.mof', 'sub/no.mof', 'x', '.mof',
+                                    'aä.mof', '../../nothere.mof',
+                                    # names no file can have: NUL (through a
+                                    # MOF hex escape), other control
+                                    # characters, over-long, lone surrogate
+                                    'sub/\\x0.mof', '\\x00', 'a\\x0000b.mof',
+                                    '\\x1.mof', 'a\\nb.mof', 'x' * 300 + '.mof',
+                                    ('d' * 200 + '/') * 25 + 'x.mof',
+                                    '\\xD800.mof', '*?<>|.mof', ' ', '~/x.mof',
+                                    '/dev/null/x.mof', '/proc/self/mem'])])
     elif s == 'self':
         files[top] = _file_unit(draw, 'F0', True, [top])
     elif s == 'mutual':
